@@ -111,14 +111,16 @@ def check_property(pid, tier, seed):
             seen[o.name] = 0
     solver_time = time.time() - ts
     undecided_fns = [(r.label, r.undecided) for r in results if r.undecided]
-    refuted = [v for v in verdicts if v.status == "refuted"]
+    # a textual structural expectation that is not met is not a refutation of the property (see contract.StructTask)
+    text_mismatch = [v for v in verdicts if v.status == "refuted" and v.kind == "struct-text"]
+    refuted = [v for v in verdicts if v.status == "refuted" and v.kind != "struct-text"]
     unknown = [v for v in verdicts if v.status == "unknown"]
     skipped = [v for v in verdicts if v.status == "skipped"]
     discharged = [v for v in verdicts if v.status == "discharged"]
     vacuous = [c for c in cover_v if c.kind == "pre-sat" and c.status == "UNSATISFIABLE"]
 
     # ---- native harness (cross-check of every contract + the bounded clauses); focus on failing functions first
-    candidates = [v for v in verdicts if v.status == "candidate"]
+    candidates = [v for v in verdicts if v.status == "candidate"] + text_mismatch
     focus = sorted({v.name.split(":")[0].split("[")[0] for v in refuted + unknown + candidates} | {lbl.split("[")[0] for lbl, _ in undecided_fns})
     harness = harness_future.result()
     pool.shutdown()
@@ -196,6 +198,9 @@ def check_property(pid, tier, seed):
         lines.append(f"KNOWN-FINDING: property={pid} {kf['what']}")
     # known findings that are reported by construction (state signatures checked by the harness)
     for v in candidates:
+        if v.kind == "struct-text":
+            lines.append(f"UNDECIDED obligation={v.name} (the source no longer has the shape this structural argument expects; not a violation by itself) fallback=bounded [{v.detail}]")
+            continue
         lines.append(f"UNDECIDED obligation={v.name} (unproved; goal-directed candidate counter-model not confirmed) fallback=bounded [{v.detail}]")
     for v in unknown:
         lines.append(f"UNDECIDED obligation={v.name} fallback=bounded({'harness ran' if harness else 'none'}) [{v.detail}]")
